@@ -21,7 +21,8 @@
 //     *slowRtCircuitBreaker);
 //   - `x == nil` / `x != nil` on an opaque variable is the parameter <x>_nil;
 //   - `a, b := f()` with an opaque hint for `f()` makes a and b opaque;
-//   - an `interface{}` parameter is an abstract value id (Z).
+//   - an `interface{}` parameter is an abstract value id (Z);
+//   - Lit: the target is a function literal inside the named function (an exit hook, a callback).
 //
 // Path-sensitive translator state (trace, occurrence counters) lives in x.vars under reserved keys
 // (NUL prefix), so the existing snapshot / restore of x.vars at branches covers it.
@@ -355,4 +356,29 @@ func (p *pkgInfo) promotedMethod(name string) (string, *ast.FuncDecl) {
 		sn = next
 	}
 	return name, nil
+}
+
+// litDecl: the n-th function literal (source order) inside fd, as a declaration; its parameters are
+// added to the variables (the enclosing function's receiver and parameters are already there)
+func litDecl(fd *ast.FuncDecl, n int, addVar func(string, ast.Expr)) *ast.FuncDecl {
+	var lit *ast.FuncLit
+	k := 0
+	ast.Inspect(fd.Body, func(nd ast.Node) bool {
+		if l, ok := nd.(*ast.FuncLit); ok && lit == nil {
+			k++
+			if k == n {
+				lit = l
+			}
+		}
+		return lit == nil
+	})
+	if lit == nil {
+		fail("function literal %d not found", n)
+	}
+	for _, f := range lit.Type.Params.List {
+		for _, nm := range f.Names {
+			addVar(nm.Name, f.Type)
+		}
+	}
+	return &ast.FuncDecl{Name: fd.Name, Type: lit.Type, Body: lit.Body}
 }
